@@ -616,3 +616,12 @@ def c04_zero_tolerance(ctx, method, which):
         dist, info = w(m1, m2)
     ctx.ensure(f"{which} = 0: never reported converged", info["converged"] is False)
     ctx.ensure(f"{which} = 0: all {num_iter} iterations are performed", len(info["convergence_history"]["distance"]) == num_iter and info["number_iterations"] == num_iter - 1)
+
+
+@ob("C04.dep_numeric", kind="B", samples=(2, 6), funcs=[], tol=1e-11, cite="(validation of assumed dependency contracts)",
+    note="hmean, scipy.linalg.lstsq (length and function-of-arguments only) and splu(M).solve(b) against the installed scipy")
+def c04_dep_numeric(ctx):
+    from contracts import deps_validation as dv
+    dv.dep_hmean(ctx)
+    dv.dep_lstsq(ctx)
+    dv.dep_splu(ctx)
